@@ -6,7 +6,7 @@ cd /repo || exit 2
 if ! git diff --quiet; then echo "/repo has uncommitted changes"; exit 2; fi
 git apply "$patch" || { echo "patch does not apply"; exit 2; }
 trap 'git -C /repo checkout -- . ' EXIT
-cd /verif
+cd /verif; export VERIF_SCRATCH_EVIDENCE=1
 for c in "$@"; do
   out=$(./check "$c" 2>&1); rc=$?
   echo "== $c rc=$rc"; echo "$out" | grep -v "^KNOWN-FINDING" | grep "VIOLATION\|fingerprint\|INCONCLUSIVE\|tier=" | cut -c1-260 | head -12
